@@ -228,7 +228,7 @@ func init() {
 	)
 	sup.Register(&sup.Check{
 		Prop: "C18", Level: "exploration",
-		Rule:        "(sequential) engine A: WriteSubDoc / SubdocInsert / GetSubDocRaw over JSON documents of depth <= 3 with dotted paths that are present, absent, or run through scalars and arrays, empty value = remove, every CAS class; the post-write document must equal the pre-document with exactly the addressed property set/removed (JSON equality with numbers compared as exact rationals: integers beyond 2^53 and long decimals must survive in every property; removals with nil and with empty non-nil values; paths through a null-valued property; documents that end in insignificant whitespace); (concurrent) 3-8 clients each own one property of one document and set / remove it or insert fresh properties while others append to a list through Update and write xattrs: at the end every property reflects its owner's last acknowledged operation, every inserted property and list token is present once and untouched properties are preserved; (forced windows) a rival write is placed at the subdoc.rw hook between the read and the write; live-only rivals (DeleteSubDocPaths, Set+PreserveExpiry) are placed in every window that opened on a live document; string properties with control characters, DEL and non-BMP characters; cell = (variant, pre-state, outcome, bucket type) / (loop, pre-state, rival)",
+		Rule:        "(sequential) engine A: WriteSubDoc / SubdocInsert / GetSubDocRaw over JSON documents of depth <= 3 with dotted paths that are present, absent, or run through scalars and arrays, empty value = remove, every CAS class; the post-write document must equal the pre-document with exactly the addressed property set/removed (JSON equality with numbers compared as exact rationals: integers beyond 2^53 and long decimals must survive in every property; removals with nil and with empty non-nil values; paths through a null-valued property; documents that end in insignificant whitespace); (concurrent) 3-8 clients each own one property of one document and set / remove it or insert fresh properties while others append to a list through Update and write xattrs: at the end every property reflects its owner's last acknowledged operation, every inserted property and list token is present once and untouched properties are preserved; (forced windows) a rival write is placed at the subdoc.rw hook between the read and the write; live-only rivals (DeleteSubDocPaths, Set+PreserveExpiry) are placed in every window that opened on a live document; string properties with control characters, DEL and non-BMP characters; the empty string as a property name, addressed by paths with empty components; cell = (variant, pre-state, outcome, bucket type) / (loop, pre-state, rival)",
 		Assumptions: kvAssume,
 		Parts:       parts18,
 		RaceOwner:   func(string) bool { return false },
